@@ -252,7 +252,7 @@ impl Server {
         }
 
         if self.clients.len() >= self.config.max_total_connections
-            && self.active_clients.len() >= self.config.max_active_connections
+            || self.active_clients.len() >= self.config.max_active_connections
         {
             // No room in the inn
             let reply = frame::Frame::HandshakeErrorFrame(frame::HandshakeErrorFrame {
@@ -360,7 +360,9 @@ impl Server {
 
             match client.state {
                 remote_client::State::Pending(ref state) => {
-                    if handshake.nonce_ack == state.local_nonce {
+                    if handshake.nonce_ack == state.local_nonce
+                        && self.active_clients.len() < self.config.max_active_connections
+                    {
                         use crate::packet_id;
 
                         let config = half_connection::Config {
